@@ -89,6 +89,9 @@ namespace detail
 		template<typename genType>
 		GLM_FUNC_QUALIFIER static genType call(genType Source, genType Multiple)
 		{
+			// 0 is a multiple of everything (and Source - 1 would wrap around)
+			if(Source == genType(0))
+				return Source;
 			genType Tmp = Source - genType(1);
 			return Tmp + (Multiple - (Tmp % Multiple));
 		}
